@@ -478,6 +478,7 @@ func Check(c Case) *kit.Violation {
 		if err != nil {
 			continue // net/http cannot deliver this request line
 		}
+		r.Method = req.Method // what net/http parsed is the request's method (identical for generated cases)
 		e := expect(c, api, r.Method, req.URL.EscapedPath())
 		if !e.Judged {
 			continue
